@@ -3,9 +3,10 @@ CONSTANTS
   MaxEvents = 2
   Faithful = FALSE
   Macro = FALSE
+  EnvAts = {1, 2}
   EnvFaults = {"401"}
   BodyFaults = {"gzip"}
   ParseFaults = {"garbage"}
-INVARIANTS TypeOK ErrorMeansNoEffects SuccessMeansAllTried PerEventExact NoListElsewhere ExactlyOneStatus EffectsAreTheEvents FaultFreeSucceeds FaultMeansError
+INVARIANTS TypeOK ErrorMeansNoEffects SuccessMeansAllTried PerEventExact NoListElsewhere ExactlyOneStatus EffectsAreTheEvents FaultFreeSucceeds FaultMeansError BatchesInOrder
 PROPERTIES NothingAfterAnswer StatusStable Answered
 CHECK_DEADLOCK FALSE
